@@ -31,13 +31,14 @@ class BaseInstance:
 
     def __init__(s):
         s.cb_hook = None     # called as cb_hook(engine, st, kind, args) at every user callback
+        s.summaries = {}     # method name -> fn(engine, st, frame, args) -> value (function summaries proven by their own step)
 
     # -------------------------------------------------- resolution of crate-local calls
     def resolve_fn(s, eng, fr, callee, args):
         P = eng.P
         c = callee
         mod = s.module
-        m = re.match(r'^(\w+)::<.*?>::(\w+)$', c)
+        m = re.match(r'^(\w+)::<.*?>::(\w+)(?:::<.*>)?$', c)
         if m and m.group(1) == s.tree_type:
             meth = m.group(2)
             cands = P.find(mod + '::tree', meth) + P.find(mod + '::array', meth)
@@ -49,6 +50,12 @@ class BaseInstance:
         m = re.match(r'^(\w+)::(\w+)::(\w+)::<.*?>::(\w+)$', c)      # key::pool::Pool::<K, E, V>::new
         if m and m.group(1) == mod:
             cands = [f for f in P.find(f'{mod}::{m.group(2)}', m.group(4)) if f.nargs == len(args)]
+            if len(cands) != 1:
+                raise Unsupported(f'cannot resolve {callee}: {cands}')
+            return cands[0]
+        m = re.match(r'^(\w+)::(\w+)::<impl .*>::(\w+)(?:::<.*>)?$', c)      # key::array::<impl KeyExpTree<K, E, V>>::expire_all
+        if m and m.group(1) == mod:
+            cands = [f for f in P.find(f'{mod}::{m.group(2)}', m.group(3)) if f.nargs == len(args)]
             if len(cands) != 1:
                 raise Unsupported(f'cannot resolve {callee}: {cands}')
             return cands[0]
@@ -104,7 +111,7 @@ class BaseInstance:
         m = re.match(r'^Vec::<(.*)>::(\w+)$', c)
         if m:
             return s.vec_method(eng, st, fr, stmt, m.group(1), m.group(2), args)
-        if re.match(r'^<Vec<u32> as Index<usize>>::index$', c):
+        if re.match(r'^<Vec<.*> as Index(Mut)?<usize>>::index(_mut)?$', c):
             r, idx = args
             vec = eng.read(st, r)
             eng.oblige(st, b_ult(idx, vec.len), 'panic', f'{fr.fn.name.split("::")[-1]}: Vec index out of bounds')
